@@ -139,4 +139,19 @@ def waitPickBeforeFix : List (List Sess) → Option Sess
       | some s => some s
       | none => waitPickBeforeFix rest
 
+/-- the wait loop at HEAD: at every tick the configured policy chooses among the sessions of the registry as it
+    is then; the first tick at which it can choose ends the wait. (The sessions a waiting request may be handed:
+    empty = nil after the last tick.) -/
+def waitAllowed (p : Policy) (xid : String) : List (List Sess) → List Sess
+  | [] => []
+  | reg :: rest =>
+    let a := allowed p { sessions := reg } xid
+    if a.isEmpty then waitAllowed p xid rest else a
+
+/-- before the repair the loop took the first open session of the registry, whatever the policy -/
+def waitAllowedBeforeFix (ticks : List (List Sess)) : List Sess :=
+  match waitPick ticks with
+  | some s => [s]
+  | none => []
+
 end Seata.LB
